@@ -180,6 +180,8 @@ def task_reference(t):
         return {"status": "timeout"}
     if lst == "internal":
         return {"status": "internal"}
+    if lst == "divergent" and not mem.divergent:
+        return {"status": "learner_divergent", "evaluations": len(traj)}
     by = {}
     for (n, d, ig, er, dn) in traj:
         by[n - d] = (n, d, ig, er, dn)
@@ -456,7 +458,7 @@ def run(chk: Check) -> int:
     chk.log("proofs done")
 
     quick = chk.quick
-    per_family = 24 if quick else 400
+    per_family = 24 if quick else 1000
     budget = 4000 if quick else 12000
     modes = ["seq1", "seqn", "shuffle"]
     ctx = mp.get_context("fork")
@@ -590,7 +592,7 @@ def run(chk: Check) -> int:
                  {"kind": "poly33", "family": "poly", "params": p})
 
     # ---- 5. reference implementation
-    nref = 10 if quick else 80
+    nref = 10 if quick else 150
     loops = 25 if quick else 60
     rtasks, rmetas = [], []
     for fam in I.FAMILIES:
@@ -610,6 +612,10 @@ def run(chk: Check) -> int:
         if r["status"] != "ok":
             ref["timeouts"] += r["status"] == "timeout"
             ref["internal_errors"] += r["status"] == "internal"
+            if r["status"] == "learner_divergent":
+                sig = f"C08:{fam}:sequential: DivergentIntegralError raised for a convergent integrand"
+                if sig not in first_fail:
+                    first_fail[sig] = (fam, params, tol, "seq1", {"verdict": "divergent", "n": r["evaluations"], "ops": None})
             continue
         ref["done_compared"] += r["done_compared"]
         ref["done_agree"] += r["done_agree"]
